@@ -29,7 +29,8 @@
          2  request data shorter than its fields imply             0x13
          3  element count 0 or beyond the end of the array         0xFF / 0x2105
          4  array index / byte offset beyond the end               0xFF / 0x2105
-         5  byte offset or fragment length not a multiple of the element size   0xFF / 0x2105
+         5  READ fragment byte offset not a multiple of the element size  0xFF / 0x2105
+            (a WRITE fragment that splits an element is accepted: the documents are silent; see EvApp 3)
          6  mask size is not the width of the tag (or the tag is not an integer) 0x03
          7  data type / structure handle does not match the tag    0xFF / 0x2107
          8  path is not a sequence of segments / wrong shape (index on a scalar, member of a non-structure,
@@ -40,7 +41,9 @@
      sends for a request that names something that does not exist; the others mean a malformed
      request.
    ---- EvApp ----
-     EvApp 1 [instance; byte offset; service] bytes    a write was executed: [bytes] now stored at [offset] *)
+     EvApp 1 [instance; byte offset; service] bytes    a write was executed: [bytes] now stored at [offset]
+     EvApp 3 [instance; offset in the transfer; length; element size]   information: that Write Tag Fragmented
+                                                       segment was not element-aligned (it was applied) *)
 From PV Require Import Base.Bytes Base.PyStr Spec.EncapParser Spec.MRParser Spec.TargetIface Spec.TargetCore
   Spec.Project Spec.Expect.
 Open Scope Z_scope.
@@ -428,9 +431,14 @@ Definition svc_write_frag (p : project) (m : mem) (img : bytes) (l : wloc) (data
               else if (n <? 1) || (w_avail l <? n) then nochange m (fail 83 E_COUNT)
               else if blen d <? 1 then nochange m (fail 83 E_SHORT)
               else if n * s <=? off then nochange m (fail 83 E_INDEX)
-              else if negb st && (negb (off mod s =? 0) || negb (blen d mod s =? 0)) then nochange m (fail 83 E_ALIGN)
               else if n * s <? off + blen d then nochange m (fail 83 E_LONG)
-              else do_store 83 m img l off d
+              else
+                let '(m', rp, evs) := do_store 83 m img l off d in
+                (* the documents do not say that a fragment must hold whole elements: accepted, and
+                   recorded as information (not EvMalformed) *)
+                if negb st && (negb (off mod s =? 0) || negb (blen d mod s =? 0))
+                then (m', rp, evs ++ [EvApp 3 [w_inst l; off; blen d; s] []])
+                else (m', rp, evs)
           end
       | _ => nochange m (fail 83 E_SHORT)
       end
